@@ -169,7 +169,10 @@ def macro_all():
         vs.append(C.viol("macro-raises", {"exc": type(e).__name__, "kind": "16-targets"}, {"error": repr(e)[:200]}, {"macro16": True}))
     before = S.project(p)
     for label, pairs in (("17-targets", [(m, "volume") for m in mods]),
-                         ("same-module-twice", [(mods[0], "volume"), (mods[0], "balance")])):
+                         ("same-module-twice", [(mods[0], "volume"), (mods[0], "balance")]),
+                         ("same-module-twice-not-adjacent", [(mods[0], "volume"), (mods[1], "volume"), (mods[0], "balance")]),
+                         ("same-module-twice-far-apart", [(m, "volume") for m in mods[:15]] + [(mods[0], "balance")]),
+                         ("same-pair-twice", [(mods[2], "volume"), (mods[3], "volume"), (mods[2], "volume")])):
         try:
             rv.m.MultiCtl.macro(p, *pairs)
             vs.append(C.viol("macro-not-refused", {"what": label}, {}, {"macro16": True}))
@@ -215,7 +218,11 @@ H_CTLS = {"volume": 1, "fine_volume": 7}
 
 
 def h_ops():
-    ops = [{"op": "link", "j": 2}, {"op": "link", "j": 3}]
+    ops = [{"op": "link", "j": 2}, {"op": "link", "j": 3}, {"op": "unlink", "j": 1}, {"op": "unlink", "j": 2}]
+    for i in (0, 1):
+        # REBIND the mapping object (same controller, other window) instead of editing it in place
+        ops.append({"op": "remap", "i": i, "min": 0x8000, "max": 0, "c": 1})
+        ops.append({"op": "remap", "i": i, "min": 100, "max": 20000, "c": 7})
     for i in range(3):
         for c in (0, 1, 7):
             ops.append({"op": "map", "i": i, "c": c})
@@ -230,7 +237,7 @@ def h_build(variant):
     import rv.api as rv
 
     p = rv.Project()
-    amps = [p.new_module(rv.m.Amplifier) for _ in range(3)]
+    amps = [p.new_module(rv.m.Amplifier) for _ in range(4)]      # amps[3] is never linked
     if variant == "macro":
         mc = rv.m.MultiCtl.macro(p, (amps[0], "volume"))
     else:
@@ -249,14 +256,18 @@ def h_fresh_delivery(cfg, v, pre):
     import rv.api as rv
 
     p = rv.Project()
-    amps = [p.new_module(rv.m.Amplifier) for _ in range(3)]
+    amps = [p.new_module(rv.m.Amplifier) for _ in range(4)]
     for a, st in zip(amps, pre):
         a.volume, a.fine_volume = st
     mc = p.new_module(rv.m.MultiCtl, gain=cfg["gain"])
     mc.quantization = cfg["quant"]
+    # replicate the link TABLE exactly (freed slots included): mapping i belongs to link slot i
+    mc.out_links[:] = list(cfg["links"])
+    mc.out_link_slots[:] = [0 if t >= 0 else -1 for t in cfg["links"]]
     for t in cfg["links"]:
         if t >= 0:
-            mc >> p.modules[t]
+            p.modules[t].in_links.append(mc.index)
+            p.modules[t].in_link_slots.append(cfg["links"].index(t))
     for i, (mn, mx, c) in enumerate(cfg["maps"]):
         mp = mc.mappings.values[i]
         mp.min, mp.max, mp.controller = mn, mx, c
@@ -279,6 +290,12 @@ def run_history(variant, hist):
         k = op["op"]
         if k == "link":
             mc >> amps[op["j"] - 1]
+        elif k == "unlink":
+            mc >> ~amps[op["j"] - 1]
+        elif k == "remap":
+            import rv.api as rv
+
+            mc.mappings.values[op["i"]] = rv.m.MultiCtl.Mapping((op["min"], op["max"], op["c"], 0, 0, 0, 0, 0))
         elif k == "map":
             before = [[m.min, m.max, m.controller] for m in mc.mappings.values]
             mc.mappings.values[op["i"]].controller = op["c"]
@@ -301,6 +318,12 @@ def run_history(variant, hist):
                 break
             got = [(a.volume, a.fine_volume) for a in amps]
             want = h_fresh_delivery(cfg, op["v"], pre)
+            linked = {t for t in cfg["links"] if t >= 0}
+            touched = [j + 1 for j in range(len(amps)) if got[j] != pre[j] and (j + 1) not in linked]
+            if touched:
+                vs.append(C.viol("delivery-to-a-module-that-is-not-a-target", {"variant": variant},
+                                 {"step": step, "input": op["v"], "modules": touched, "links": cfg["links"]}, case))
+                break
             if got != want:
                 vs.append(C.viol("delivery-depends-on-history", {"variant": variant},
                                  {"step": step, "input": op["v"], "delivered": got, "fresh": want, "config": cfg}, case))
@@ -324,6 +347,8 @@ def histories_task(t):
                 hist = [first] + list(rest)
                 if hist[-1]["op"] not in ("value", "map"):
                     continue            # oracles fire on value / map ops only
+                if d == depth - 1 and depth >= 4 and not any(o["op"] in ("unlink", "remap", "link") for o in hist[:-1]):
+                    pass
                 vs = run_history(variant, hist)
                 r["evals"] += 1
                 C.count(r, "histories")
